@@ -50,6 +50,23 @@ def make_oracle(prop):
                 fails += spec["fn"](ctx["std"], "StandardSet", list(s), "list")
             except Exception:  # noqa
                 pass
+        if prop in ("C03", "C04", "C06") and 1 <= len(s) <= 8:
+            # two-column frames: a fixed companion column (year-like / date / decimal / int / text) before and after this one
+            comps = ["'2020'", "'2020-01-01'", "'1.5'", "1", "'a'", "'TRUE'"]
+            comp = comps[len(item["recipe"]) % len(comps)]
+            for order in (("p", "q"), ("q", "p")):
+                fr = ("pd.DataFrame({'%s': pd.Series([%s] * %d), '%s': (%s).reset_index(drop=True)})" % (order[0], comp, len(s), order[1], item["recipe"])
+                      if order[0] == "p" else
+                      "pd.DataFrame({'%s': (%s).reset_index(drop=True), '%s': pd.Series([%s] * %d)})" % (order[0], item["recipe"], order[1], comp, len(s)))
+                if item["recipe"].startswith("bank["):
+                    break
+                try:
+                    df = streams.build(fr)
+                except Exception:  # noqa
+                    continue
+                for f in spec["fn"](ctx["typesets"]["CompleteSet"], "CompleteSet", df, "frame"):
+                    f["frame_recipe"] = fr
+                    fails.append(f)
         if prop == "C05" and len(s) and len(s) <= 8:
             df = pd.DataFrame({"a": s.reset_index(drop=True), "b": s.reset_index(drop=True)})
             fails += D.c05_one(ctx["std"], "StandardSet", df, "frame")
@@ -69,6 +86,8 @@ def rebuild(r):
         return s.to_numpy()
     if b == "list":
         return list(s)
+    if b == "frame" and r.get("frame_recipe"):
+        return streams.build(r["frame_recipe"])
     if b == "frame":
         return pd.DataFrame({"a": s.reset_index(drop=True), "b": s.reset_index(drop=True)})
     return s
